@@ -1161,7 +1161,10 @@ func TestVerifC28Verify(t *testing.T) {
 	pool := execpool.MakeBacklog(nil, 0, execpool.LowPriority, nil)
 	defer pool.Shutdown()
 
-	ncases := c.N(420, 9000)
+	ncases := c.N(420, 4200)
+	if c.Lane == "asan" {
+		ncases = 900 // the sanitizer lane looks for memory errors in the cgo verification paths, not for more cases
+	}
 	for ci := 0; ci < ncases && c.Violations() < 20; ci++ {
 		r := c.Rand(28, 1, uint64(ci))
 		cv := c28Protocols()[ci%3]
@@ -1305,10 +1308,11 @@ func TestVerifC28Verify(t *testing.T) {
 	c28Thresholds(c, pqs, hbs)
 	c28Cache(c, pqs, hbs)
 
-	c.Require("honest_accepted", int64(c.N(150, 3000)))
-	c.Require("mutants_rejected_by_authorization_check", int64(c.N(3000, 60000)))
-	c.Require("mutants_still_authorized_accepted", int64(c.N(100, 2000)))
-	c.Require("byte_mutants_decoded", int64(c.N(3000, 60000)))
+	scale := int64(ncases) / 420
+	c.Require("honest_accepted", 150*scale)
+	c.Require("mutants_rejected_by_authorization_check", 3000*scale)
+	c.Require("mutants_still_authorized_accepted", 100*scale)
+	c.Require("byte_mutants_decoded", 3000*scale)
 	c.Require("threshold_cases", 100)
 	c.Require("cache_queries_vouched", 20)
 	c.Require("cache_queries_mutant_not_vouched", 100)
